@@ -56,6 +56,8 @@ type runner struct {
 	ss    []*sessRun
 	log   []string // observations, one per op (what the transparency check compares)
 	fails []string
+	// beforeWrite, when set, runs just before every source write (directed scenarios arm their hooks here)
+	beforeWrite func(sess int)
 }
 
 func newRunner(f *flow, nsess int) *runner {
@@ -176,6 +178,9 @@ func (r *runner) exec(o op) {
 	switch o.kind {
 	case 'w':
 		w := sr.ip.write(o.node, o.v)
+		if r.beforeWrite != nil {
+			r.beforeWrite(o.sess)
+		}
 		n := sr.s.writers[o.node].Write(packet.New(types.NewInt(o.v)))
 		obs = append(obs, fmt.Sprintf("n=%d", n))
 		sr.queue[o.node] = append(sr.queue[o.node], w)
